@@ -9,6 +9,7 @@ import (
 
 	"github.com/biogo/biogo/feat"
 	"github.com/biogo/biogo/feat/gene"
+	"github.com/biogo/biogo/feat/genome"
 	"verif/h/enum"
 )
 
@@ -544,8 +545,59 @@ func check(c *enum.Ctx, k kase) bool {
 	panic("kind")
 }
 
+// genomeChain: the gene sits on an assembly fragment that sits on a chromosome (package feat/genome):
+// exon -> transcript -> gene -> fragment -> chromosome, with every offset from a small set and fragments
+// that use their component from its first letter or from the eighth.
+func genomeChain(c *enum.Ctx) {
+	for _, o0 := range []int{0, 3} {
+		for _, o1 := range []int{0, 5} {
+			for _, cs := range []int{0, 40} {
+				for _, fs := range []int{0, 7} {
+					for _, coding := range []bool{false, true} {
+						k := map[string]interface{}{"family": "gene on a genome.Fragment on a genome.Chromosome", "transcript_offset": o0, "gene_offset": o1, "chr_start": cs, "frag_start": fs, "coding": coding}
+						c.Doing(0, k)
+						c.Eval()
+						c.Nontrivial(enum.J(k))
+						c.Guard("genome-chain/panic", k, func() {
+							chr := &genome.Chromosome{Chr: "chr1", Length: 1000}
+							frag := &genome.Fragment{Frag: "ctg", Chr: chr, ChrStart: cs, ChrEnd: cs + 200, FragStart: fs, FragEnd: fs + 200}
+							g := &gene.Gene{ID: "g", Chrom: frag, Offset: o1, Orient: feat.Forward}
+							var t gene.Transcript = &gene.NonCodingTranscript{ID: "t", Loc: g, Offset: o0, Orient: feat.Forward}
+							if coding {
+								t = &gene.CodingTranscript{ID: "t", Loc: g, Offset: o0, Orient: feat.Forward, CDSstart: 2, CDSend: 20}
+							}
+							if err := t.SetExons(mkExons(t, []iv{{0, 10}, {15, 30}})...); err != nil {
+								c.Fail("genome-chain/SetExons", k, "%v", err)
+								return
+							}
+							if frag.Start() != cs || frag.End() != cs+200 || frag.Len() != 200 {
+								c.Fail("genome-chain/fragment-extent", k, "fragment placed at [%d,%d) reports Start=%d End=%d Len=%d", cs, cs+200, frag.Start(), frag.End(), frag.Len())
+							}
+							for i, e := range t.Exons() {
+								for _, p := range []int{0, 1, e.Len()} {
+									got, ref := feat.BasePositionOf(e, p)
+									if w := p + e.Start() + o0 + o1 + cs; got != w || ref != feat.Feature(chr) {
+										c.Fail("genome-chain/BasePositionOf", k, "BasePositionOf(exon %d, %d) = %d on %v, want %d on the chromosome", i, p, got, ref, w)
+									}
+									pf, ok1 := feat.PositionWithin(e, frag, p)
+									pc, ok2 := feat.PositionWithin(e, chr, p)
+									pfc, ok3 := feat.PositionWithin(frag, chr, pf)
+									if !ok1 || !ok2 || !ok3 || pf != p+e.Start()+o0+o1 || pc != pf+cs || pfc != pc {
+										c.Fail("genome-chain/PositionWithin", k, "exon %d pos %d: within the fragment %d, within the chromosome %d, fragment->chromosome %d (placed at %d)", i, p, pf, pc, pfc, cs)
+									}
+								}
+							}
+						})
+					}
+				}
+			}
+		}
+	}
+}
+
 func run(c *enum.Ctx) {
-	c.Rule("layouts: every set of <=3 intervals inside [0,L] (L=5 quick, 6 thorough; accepted and rejected sets alike) in 3 input orders x CDS bounds x orientation at transcript/gene/chromosome level x offsets {0,3} x coding/non-coding; chains of depth 1,2,3,999,1000; conversions on -6..6 and the int extremes; transcripts of 2..40 and 2^k-1, 2^k, 2^k+1 (63..257) exons with an exon added inside an intron, from an intron into the next exon, from inside an exon, and filling an intron; histories: BFS over sequences of <=3 (thorough 4) operations from 16 accepted/rejected SetExons/Add operations (SetExons also of the transcript's own exon slice extended with append) with spare capacity 0 and 2, on a coding and a non-coding transcript, de-duplicated on the model exon set, compared with a plain model (exon set, introns, extent) after every operation; non-trivial = accepted layouts and all histories")
+	genomeChain(c)
+	c.Rule("layouts: every set of <=3 intervals inside [0,L] (L=5 quick, 6 thorough; accepted and rejected sets alike) in 3 input orders x CDS bounds x orientation at transcript/gene/chromosome level x offsets {0,3} x coding/non-coding; chains of depth 1,2,3,999,1000; a gene on a genome.Fragment (component used from its first or its eighth letter) on a genome.Chromosome; conversions on -6..6 and the int extremes; transcripts of 2..40 and 2^k-1, 2^k, 2^k+1 (63..257) exons with an exon added inside an intron, from an intron into the next exon, from inside an exon, and filling an intron; histories: BFS over sequences of <=3 (thorough 4) operations from 16 accepted/rejected SetExons/Add operations (SetExons also of the transcript's own exon slice extended with append) with spare capacity 0 and 2, on a coding and a non-coding transcript, de-duplicated on the model exon set, compared with a plain model (exon set, introns, extent) after every operation; non-trivial = accepted layouts and all histories")
 	L := 5
 	depth := 3
 	if !c.Quick {
